@@ -8,7 +8,7 @@ CONSTANTS
   MaxFrames = 1
   Kinds = {"arr", "struct"}
   MaxLeak = 100
-  MapRemoveDropsFirst = FALSE
+  MapRemoveDropsFirst = TRUE
   BugAppend = FALSE
   BugRemGuard = FALSE
   Depth = 25
